@@ -23,32 +23,23 @@ namespace Tbox.C06
 
 /-- **C06_send_stream.** At every point, what the peer has received followed by what is still
 queued is exactly the concatenation, in call order, of the payloads of all `send` calls that
-returned true (`sentAll`) — nothing lost, duplicated or reordered, for every accept pattern of the
-kernel — as long as no `send` hit a write error (`drops = 0`).  In general it is that
-concatenation without the payloads dropped on such an error (`kept`; each drop is recorded as a
-`sendDrop` in the history: the code logs a warning and returns true). -/
+returned true (`sentAll`) — nothing lost, duplicated or reordered — for every answer pattern of the
+kernel at both `write` sites: partial accepts, EAGAIN, EINTR, ENOBUFS, ENOMEM, EPIPE, … at any call
+index (patches/C06-09: a transient errno keeps the payload queued, after a lasting one `send`
+returns false, so the payload is not in `sentAll`).  `drops` / `kept` are the ghosts of the code as
+found (`sendOld`): nothing is ever dropped now. -/
 theorem C06_send_stream (ops : List Op) :
-    (run init ops).wire ++ (run init ops).sendQ = (run init ops).kept ∧
-    ((run init ops).drops = 0 → (run init ops).wire ++ (run init ops).sendQ = (run init ops).sentAll) := by
+    (run init ops).wire ++ (run init ops).sendQ = (run init ops).sentAll ∧
+    (run init ops).drops = 0 ∧ (run init ops).kept = (run init ops).sentAll := by
   have h := (run_pres sendInv_frame ops init (fun _ _ => trivial) init_compInv.1)
-  exact ⟨h.stream, fun h0 => by rw [h.stream, h.nodrop h0]⟩
+  have h0 : (run init ops).drops = 0 := run_pres noDrop_frame ops init (fun _ _ => trivial) rfl
+  exact ⟨by rw [h.stream, h.nodrop h0], h0, h.nodrop h0⟩
 
-/-- what the ghost `sentAll` is: every `send` that returns true appends its payload, a refused
-`send` changes nothing -/
+/-- what the ghost `sentAll` is: every `send` that returns true appends its payload; a refused
+`send` changes nothing but the oracle queue (the `write` it made consumed an answer) -/
 theorem C06_send_ghost (s : S) (d : List Byte) :
     ((send s d).2 = true → (send s d).1.sentAll = s.sentAll ++ d) ∧
-    ((send s d).2 = false → (send s d).1 = s) := by
-  unfold send
-  split
-  · simp
-  · simp only
-    split
-    · simp
-    · split <;> simp
-
-/-- a payload is dropped only when the kernel answered that very `write` with an error -/
-theorem C06_send_drop_only_on_error (s : S) (d : List Byte) :
-    (send s d).1.drops ≠ s.drops → ∃ q, s.wq = .err :: q := by
+    ((send s d).2 = false → (send s d).1 = { s with wq := (send s d).1.wq }) := by
   unfold send
   split
   · simp
@@ -58,15 +49,64 @@ theorem C06_send_drop_only_on_error (s : S) (d : List Byte) :
     · split
       · simp
       · simp
-      · rename_i q heq
+      · split <;> simp
+
+/-- `send` refuses a payload only without a write event or when the kernel answered that very
+`write` (the one of the `send` site) with a lasting error -/
+theorem C06_send_refused_only_on_lasting_error (s : S) (d : List Byte) :
+    (send s d).2 = false →
+      s.hasWr = false ∨ ∃ c q, popW s .send d.length = (.err c, q) ∧ transientErr c = false := by
+  unfold send
+  split
+  · intro _; exact .inl (by assumption)
+  · simp only
+    split
+    · simp
+    · split
+      · simp
+      · simp
+      · rename_i c q heq
+        split
+        · simp
+        · rename_i hc
+          intro _
+          exact .inr ⟨c, q, heq, by simpa using hc⟩
+
+/-- a transient errno at the `send` site (EINTR, ENOMEM, ENOBUFS; EAGAIN is its own answer): the
+whole payload is queued, the write event armed, `send` returns true -/
+theorem C06_send_transient_error_queues (s : S) (d : List Byte) (c : Nat) (q : List WEnt)
+    (hw : s.hasWr = true) (hr : s.st = .running) (he : s.sendQ = [])
+    (ha : popW s .send d.length = (.err c, q)) (ht : transientErr c = true) :
+    (send s d).2 = true ∧ (send s d).1.sendQ = d ∧ (send s d).1.writeArmed = true ∧
+    (send s d).1.wire = s.wire := by
+  simp [send, hw, hr, he, ha, ht]
+
+/-- the code as found: a payload is dropped only when the kernel answered that very `write` with an
+error … -/
+theorem C06_send_drop_only_on_error (s : S) (d : List Byte) :
+    (sendOld s d).1.drops ≠ s.drops → ∃ c q, popW s .send d.length = (.err c, q) := by
+  unfold sendOld
+  split
+  · simp
+  · simp only
+    split
+    · simp
+    · split
+      · simp
+      · simp
+      · rename_i c q heq
         intro _
-        unfold popW at heq
-        simp only at heq
-        split at heq
-        · rename_i a q' hq
-          simp only [Prod.mk.injEq] at heq
-          exact ⟨q', by rw [hq, heq.1, heq.2]⟩
-        · simp at heq
+        exact ⟨c, q, heq⟩
+
+/-- **C06_send_drop_counterexample_unpatched** … and it did so for EINTR (nothing wrong with the
+connection, which stays up): `send` returns true, the byte is neither on the wire nor queued, and
+later data flows as if it had never been handed over. -/
+theorem C06_send_drop_counterexample_unpatched :
+    let s := run init [.init 3, .enable, .kw [⟨some .send, .err 4⟩]]
+    (sendOld s [1]).2 = true ∧ (sendOld s [1]).1.sentAll = [1] ∧ (sendOld s [1]).1.st = .running ∧
+    (sendOld s [1]).1.wire ++ (sendOld s [1]).1.sendQ = [] ∧
+    (run (sendOld s [1]).1 [.send [2], .wr, .wr]).wire = [2] := by
+  decide
 
 /-- **C06_send_progress.** Whenever the descriptor is running and bytes are queued, the write
 event is armed — so the next writable pass writes. -/
@@ -74,12 +114,57 @@ theorem C06_send_progress (ops : List Op) :
     (run init ops).st = .running → (run init ops).sendQ ≠ [] → (run init ops).writeArmed = true :=
   (run_pres sendInv_frame ops init (fun _ _ => trivial) init_compInv.1).prog
 
+/-- the same, spelled out for fault schedules: after ANY history, ANY list of kernel answers —
+accepts of any size, EAGAIN, EINTR or any other errno, each addressed to the `write` in `send()`,
+to the `write` in the write-ready callback, or to whichever comes first — and ANY continuation,
+a running descriptor with queued bytes has its write event armed -/
+theorem C06_send_progress_any_answers (ops : List Op) (answers : List WEnt) (ops' : List Op) :
+    let s := run init (ops ++ [.kw answers] ++ ops')
+    s.st = .running → s.sendQ ≠ [] → s.writeArmed = true :=
+  C06_send_progress _
+
+/-- an error answer to the `write` of the write-ready callback — whatever the errno — leaves the
+queue, the wire and the write event as they are: only the write-error callback (if set) runs -/
+theorem C06_write_error_keeps_queue (s : S) (c : Nat) (q : List WEnt) (hq : s.sendQ ≠ [])
+    (ha : popW s .cb s.sendQ.length = (.err c, q)) :
+    onWrite s = fire { s with wq := q } s.wecb (.writeError c) := by
+  simp [onWrite, hq, ha]
+
+/-- **C06_send_progress_counterexample_disarm** (the seeded variant C06-5, not the code: the error
+branch of `onWriteCallback` switches the write event off).  One EINTR at the callback site and the
+descriptor is running with two bytes queued and nobody to write them. -/
+theorem C06_send_progress_counterexample_disarm :
+    let s := run init [.init 3, .enable, .kw [⟨some .send, .accept 1⟩, ⟨some .cb, .err 4⟩], .send [1, 2, 3]]
+    s.writeArmed = true ∧ (onWriteDisarm s).st = .running ∧ (onWriteDisarm s).sendQ = [2, 3] ∧
+    (onWriteDisarm s).writeArmed = false ∧
+    (onWrite s).writeArmed = true ∧ (onWrite s).sendQ = [2, 3] := by
+  decide
+
+/-- the two `write` sites are scheduled separately: an answer addressed to the callback site is
+passed by the direct write of `send()`, and the other way round -/
+theorem C06_write_sites_separate :
+    let s := run init [.init 3, .enable, .kw [⟨some .cb, .err 4⟩, ⟨some .send, .eagain⟩]]
+    popW s .send 3 = (.eagain, [⟨some .cb, .err 4⟩]) ∧ popW s .cb 3 = (.err 4, [⟨some .send, .eagain⟩]) := by
+  decide
+
 /-- … and a writable pass in which the kernel accepts `k` bytes moves exactly the first `k`
 queued bytes to the peer. -/
-theorem C06_send_drains (s : S) (k : Nat) (q : List WAns)
-    (ha : s.writeArmed = true) (hq : s.sendQ ≠ []) (hw : s.wq = .accept k :: q) :
+theorem C06_send_drains (s : S) (k : Nat) (q : List WEnt)
+    (ha : s.writeArmed = true) (hq : s.sendQ ≠ []) (hw : popW s .cb s.sendQ.length = (.accept k, q)) :
     (step s .wr).1.wire = s.wire ++ s.sendQ.take k ∧ (step s .wr).1.sendQ = s.sendQ.drop k := by
-  simp [step, ha, onWrite, hq, popW, hw]
+  simp [step, ha, onWrite, hq, hw]
+
+/-- **C06_send_eventually_drains** (the progress `C06_send_progress` is for).  From any state in
+which queued bytes have the write event armed, with no user script in the way (no write-error and no
+send-complete callback: a script may legitimately disable the descriptor) and a kernel that by
+itself accepts what it is offered: however many fault answers are queued — short counts, EAGAIN,
+EINTR, ENOBUFS, EPIPE …, for either `write` site — after at most one writable pass per queued answer
+plus one, every queued byte is on the wire, in order, and the queue is empty. -/
+theorem C06_send_eventually_drains (s : S) (hw : s.wecb = none) (hs : s.scb = none) (hm : s.wmax = 0)
+    (ha : s.sendQ ≠ [] → s.writeArmed = true) :
+    (run s (List.replicate (s.wq.length + 1) .wr)).wire = s.wire ++ s.sendQ ∧
+    (run s (List.replicate (s.wq.length + 1) .wr)).sendQ = [] :=
+  drains_wr _ s (Nat.le_refl _) hw hs hm ha
 
 /-- **C06_send_complete_only_when_empty.** Every send-complete notification was made at a moment
 when every byte accepted by `send` so far had reached the peer (ghost snapshot
@@ -180,18 +265,62 @@ theorem C06_close_once_counterexample :
     zeroCount (runOld init [.init 3, .setZcb (some []), .enable, .peof, .rd, .rd, .rd]).hist = 3 := by
   decide
 
+/-! ## `readv`: EINTR, and the 1 KiB spill buffer -/
+
+/-- **C06_read_eintr_harmless** (patches/C06-10).  A readable pass whose first `readv` is
+interrupted changes nothing but the oracle queue: no callback, no byte moved, the read event stays
+on — the next pass reads. -/
+theorem C06_read_eintr_harmless (s : S) (q : List RAns) (hr : s.readOn = true)
+    (hp : s.pending ≠ [] ∨ s.eof = true) (hq : s.rq = .eintr :: q) :
+    (step s .rd).1 = { s with rq := q } := by
+  simp [step, hr, hp, hq, onRead, firstRead]
+
+/-- **C06_read_eintr_counterexample_unpatched.** The code as found reports EINTR through the
+read-error callback; a TcpConnection takes that for the end of the stream: a live connection (the
+peer has not closed) is disconnected with a byte of the peer never read, and refuses to send. -/
+theorem C06_read_eintr_counterexample_unpatched :
+    let s := runOld init [.cinit, .setDcb (some []), .setRcb 0 (some (9, [])), .feed [7], .kr [.eintr], .rd]
+    s.hist = [.disconnected true 1] ∧ s.eof = false ∧ s.pending = [7] ∧ s.expired = true ∧
+    (run init [.cinit, .setDcb (some []), .setRcb 0 (some (9, [])), .feed [7], .kr [.eintr], .rd, .rd]).hist
+      = [.recv [7] 9] := by
+  decide
+
+/-- **C06_spill_keeps_order.** However the bytes of one `readv` are split between the writable
+space of the receive buffer (`w` bytes, any `w`) and the spill buffer, the code's accounting
+(`hasWritten(w)` + `append(extbuf, rsize - w)`, or `hasWritten(rsize)`) leaves the receive queue
+with exactly those bytes appended in order — the FIFO view `recvQ ++ d` used by the model. -/
+theorem C06_spill_keeps_order (q : List Byte) (w : Nat) (d : List Byte) : afterReadv q w d = q ++ d := by
+  unfold afterReadv landReadv
+  split
+  · have h1 : List.take (d.length - w) (List.drop w d) = List.drop w d :=
+      List.take_of_length_le (by rw [List.length_drop]; exact Nat.le_refl _)
+    simp only [h1, List.append_assoc, List.take_append_drop]
+  · rename_i h
+    have h2 : min d.length w = d.length := Nat.min_eq_left (by omega)
+    simp only [List.take_take, h2, List.take_length]
+
+/-- … and the kernel, which returns at most `w + 1024` bytes, never puts more than 1024 of them in
+`extbuf`; exactly `rsize - w` when the writable space is full (0 when the read fits exactly) -/
+theorem C06_spill_bound (w : Nat) (d : List Byte) (h : d.length ≤ w + extbufSize) :
+    (landReadv w d).2.length = d.length - w ∧ (landReadv w d).2.length ≤ extbufSize ∧
+    (landReadv w d).1.length = min w d.length := by
+  have h' : d.length ≤ w + 1024 := h
+  refine ⟨by simp [landReadv], ?_, by simp [landReadv]⟩
+  show (List.drop w d).length ≤ 1024
+  rw [List.length_drop]; omega
+
 /-! ## non-vacuity -/
 
 /-- the hypotheses of `C06_send_progress` are met: a partial write leaves bytes queued while running -/
 example :
-    let s := run init [.init 3, .enable, .kw [.accept 1], .send [1, 2, 3]]
+    let s := run init [.init 3, .enable, .kw [⟨none, .accept 1⟩], .send [1, 2, 3]]
     s.st = .running ∧ s.sendQ = [2, 3] ∧ s.wire = [1] ∧ s.writeArmed = true := by decide
 
 /-- send before enable, partial accepts, EAGAIN: everything arrives, in order, and completion is
 reported once at the end -/
 example :
     let s := run init [.init 3, .setScb (some []), .send [1, 2], .enable, .send [3],
-                       .kw [.accept 1, .eagain, .accept 5], .wr, .wr, .wr, .wr]
+                       .kw [⟨none, .accept 1⟩, ⟨some .cb, .err 4⟩, ⟨none, .eagain⟩, ⟨none, .accept 5⟩], .wr, .wr, .wr, .wr, .wr]
     s.wire = [1, 2, 3] ∧ s.sendQ = [] ∧ s.hist = [.sendComplete 0] ∧ s.drops = 0 := by decide
 
 /-- unconsumed bytes are re-presented; at EOF what is buffered below the threshold is presented,
@@ -204,7 +333,7 @@ example :
 /-- one dispatch reporting readable and writable: the read callback's `send` arms the write event,
 which is not served in that dispatch (it was not subscribed when the dispatch started) -/
 example :
-    let s := run init [.init 3, .setRcb 0 (some (9, [.send [1]])), .enable, .kw [.eagain], .feed [5], .rw]
+    let s := run init [.init 3, .setRcb 0 (some (9, [.send [1]])), .enable, .kw [⟨none, .eagain⟩], .feed [5], .rw]
     s.hist = [.recv [5] 9] ∧ s.sendQ = [1] ∧ s.wire = [] ∧ s.writeArmed = true := by decide
 
 /-- a TcpConnection: EOF disables, expires and notifies once; later sends are refused -/
@@ -213,9 +342,41 @@ example :
                        .feed [1], .peof, .rd, .rd, .rd, .send [6]]
     s.hist = [.recv [1] 9, .disconnected false 0] ∧ s.expired = true ∧ s.wire = [] := by decide
 
-/-- `send` hits a write error: the payload is dropped (recorded) and later data still flows -/
+/-- `send` hits write errors: ENOBUFS keeps the payload queued and it arrives before later data; after
+EPIPE `send` returns false and the payload is not counted as handed over -/
 example :
-    let s := run init [.init 3, .enable, .kw [.err], .send [1], .send [2]]
-    s.drops = 1 ∧ s.wire = [2] ∧ s.kept = [2] ∧ s.sentAll = [1, 2] := by decide
+    let s := run init [.init 3, .enable, .kw [⟨some .send, .err 105⟩], .send [1], .send [2], .wr]
+    s.drops = 0 ∧ s.wire = [1, 2] ∧ s.sentAll = [1, 2] ∧ s.sendQ = [] := by decide
+
+example :
+    let s := run init [.init 3, .enable, .kw [⟨none, .err 32⟩]]
+    (send s [1]).2 = false ∧ (send s [1]).1.sentAll = [] ∧ (send s [1]).1.wq = [] ∧
+    popW s .send 1 = (.err 32, []) ∧ transientErr 32 = false := by decide
+
+/-- the hypotheses of `C06_send_transient_error_queues` / `C06_write_error_keeps_queue` are met -/
+example :
+    let s := run init [.init 3, .enable, .kw [⟨some .send, .err 4⟩]]
+    s.hasWr = true ∧ s.st = .running ∧ s.sendQ = [] ∧ popW s .send 2 = (.err 4, []) ∧ transientErr 4 = true := by decide
+
+example :
+    let s := run init [.init 3, .enable, .kw [⟨none, .eagain⟩, ⟨some .cb, .err 12⟩], .send [1, 2]]
+    s.sendQ ≠ [] ∧ popW s .cb s.sendQ.length = (.err 12, []) := by decide
+
+/-- the hypotheses of `C06_send_eventually_drains` are met by a state with a fault schedule in front of it -/
+example :
+    let s := run init [.init 3, .enable, .kw [⟨some .send, .err 4⟩, ⟨some .cb, .accept 1⟩, ⟨some .cb, .err 105⟩, ⟨none, .eagain⟩], .send [1, 2, 3]]
+    s.wecb = none ∧ s.scb = none ∧ s.wmax = 0 ∧ s.sendQ = [1, 2, 3] ∧ s.writeArmed = true ∧ s.wq.length = 3 ∧
+    (run s (List.replicate 4 .wr)).wire = [1, 2, 3] := by decide
+
+/-- a read that fills the writable space exactly (spill used with 0 bytes), by one byte more, by 1024 more -/
+example : landReadv 4 [1, 2, 3, 4] = ([1, 2, 3, 4], []) ∧ landReadv 4 [1, 2, 3, 4, 5] = ([1, 2, 3, 4], [5]) ∧
+    afterReadv [9] 4 [1, 2, 3, 4, 5] = [9, 1, 2, 3, 4, 5] ∧ afterReadv [9] 0 [1] = [9, 1] := by decide
+
+/-- EINTR in the middle of the read loop, ECONNRESET after data: what was read is presented, the
+rest stays pending for the next pass -/
+example :
+    let s := run init [.init 3, .setRcb 0 (some (9, [])), .setRecb (some []), .enable, .feed [1, 2, 3],
+                       .kr [.chunk 0, .eintr, .chunk 0, .err, .err], .rd, .rd, .rd]
+    s.hist = [.recv [1] 9, .recv [2] 9, .readError 104] ∧ s.pending = [3] := by decide
 
 end Tbox.C06
